@@ -1,0 +1,22 @@
+//go:build verif
+
+// Contracts for package observer, read by /verif/govc. Comment-only.
+
+package observer
+
+// contextObserver.With: the child's context is the parent's followed by the new fields, in a
+// backing array of its own - the parent's context (header and every element), its siblings and
+// every Field cell that existed before are untouched (capacity-capped append).
+//@ func (*zaptest/observer.contextObserver).With
+//@   props C07
+//@   refines zapcore.Core.With
+//@   flags nopanic
+//@   requires co != nil
+//@   modifies $user, comp(E:uint8), comp(E:zapcore.Core), fields(zapcore.Field)
+//@   ensures typeof(result) == type(*contextObserver) && fresh(as(result, type(*contextObserver)))
+//@   ensures as(result, type(*contextObserver)).LevelEnabler == old(co.LevelEnabler) && as(result, type(*contextObserver)).logs == old(co.logs)
+//@   ensures len(as(result, type(*contextObserver)).context) == len(old(co.context)) + len(fields)
+//@   ensures forall i int :: 0 <= i && i < len(old(co.context)) ==> as(result, type(*contextObserver)).context[i] == old(co.context[i])
+//@   ensures forall j int :: 0 <= j && j < len(fields) ==> as(result, type(*contextObserver)).context[len(old(co.context)) + j] == old(fields[j])
+//@   ensures *co == old(*co)
+//@   ensures type_frame(type(zapcore.Field))
